@@ -60,6 +60,15 @@ CLAIMS.update({
             "write isolation of later assignments through shared arrays is not claimed by the property and not demanded"),
 })
 
+CLAIMS.update({
+    "C09": (E, "exploration", EN,
+            "full product of a configuration grid (18 merit-function families incl. inconsistent / rank-deficient / non-monotone ones x starts x limits x tolerances incl. unreachable x knob and target weights x n_steps_max x Broyden x disabled knobs/targets), re-use of an optimizer after the knobs were moved, and fault enumeration: every call position of the user's action during solve() raising once; normal return => independent evaluation within every active tolerance (exact); exception => knobs and flags equal log row 0",
+            "assert_within_tol / restore_if_fail at their defaults; starts strictly inside the limits; no NaN-producing functions"),
+    "C10": (E, "exploration", EN,
+            "full product of a grid with exterior/far solutions: limit boxes x per-knob max_step (uniform, different per knob, partial) x weights x persistent and one-call disabling of knobs/targets (by index, tag and name) x step(n)/solve() x Broyden; every log row and the container inside the closed limits, every Jacobian-step row within max_step, disabled knobs never written with another value, differential twin for disabled targets (bit-identical trajectory), flags restored after one-call disabling",
+            "limits exact for unit weights / 2 ulp otherwise; max_step with 4e-12 relative slack; see DESIGN section 6 for what counts as changing a disabled knob"),
+})
+
 NOT_YET = "check under construction in this session; not yet claimed"
 
 
